@@ -151,6 +151,20 @@ pub fn attack_programs() -> Vec<(&'static str, &'static str)> {
         ("fail-in-mixin-content", "@mixin m { w { @content; } }\n@include m { a: b; c: $undefined-content; }\n"),
         ("fail-in-at-root", "a { b { @at-root .c-#{$undefined-root} { d: e; } } }\n"),
         ("fail-in-keyframes", "@keyframes k-#{$undefined-kf} { from { a: b; } }\n"),
+        // bodies that are invalid where they stand, next to valid bodies of the same shape: whether a
+        // body was validated must not be remembered from another stylesheet
+        ("valid-body-if", "a { @if true { p0: v; } }\n"),
+        ("invalid-body-mixin-in-if", "a { @if true { @mixin m { p0: v; } } }\n"),
+        ("valid-body-each", "@each $i in 1 2 { b { p0: $i; } }\n"),
+        ("invalid-body-function-in-each", "@each $i in 1 2 { @function f() { @return $i; } }\n"),
+        ("valid-body-rule", "a { b { p0: v; } }\n"),
+        ("invalid-body-use-in-rule", "a { @use \"sass:math\"; }\n"),
+        ("invalid-body-forward-in-if", "@if true { @forward \"sass:math\"; }\n"),
+        ("invalid-body-decl-at-root", "p0: v;\na { b: c; }\n"),
+        ("valid-body-mixin", "@mixin m { p0: v; }\na { @include m; }\n"),
+        ("invalid-body-mixin-in-mixin", "@mixin m { @mixin n { p0: v; } }\na { @include m; }\n"),
+        ("invalid-body-return-in-mixin", "@mixin m { @return 1; }\na { @include m; }\n"),
+        ("invalid-body-content-outside", "a { @content; }\n"),
         ("plain-after-failures", "a { b: c; }\n.item-1 { d: e; }\n@media screen { f { g: h; } }\n"),
         ("random-unique", "@use \"sass:math\";\na { b: math.random(); c: math.random(10); d: unique-id(); }\n"),
         ("unique-many", "@for $i from 1 through 20 { x { y: unique-id(); } }\n"),
@@ -342,6 +356,38 @@ pub fn lookup_storm(rng: &mut Rng) -> Item {
     Item::simple(&format!("storm-{}", crate::hex(tag.finish())), &src)
 }
 
+/// The functions of the built-in modules (as of Sass 1.7x); a missing one only yields "Undefined function", always.
+const BUILTIN_FNS: [(&str, &[&str]); 7] = [
+    ("math", &["ceil", "clamp", "floor", "max", "min", "round", "abs", "hypot", "log", "pow", "sqrt", "cos", "sin", "tan", "acos", "asin", "atan", "atan2", "compatible", "is-unitless", "unit", "div", "percentage", "random"]),
+    ("string", &["quote", "index", "insert", "length", "slice", "to-upper-case", "to-lower-case", "unquote", "split"]),
+    ("list", &["append", "index", "is-bracketed", "join", "length", "separator", "nth", "set-nth", "slash", "zip"]),
+    ("map", &["deep-merge", "deep-remove", "get", "has-key", "keys", "merge", "remove", "set", "values"]),
+    ("color", &["adjust", "scale", "change", "mix", "invert", "complement", "grayscale", "red", "green", "blue", "hue", "saturation", "lightness", "whiteness", "blackness", "alpha", "opacity", "hwb", "ie-hex-str", "channel", "space", "to-space", "is-legacy", "same"]),
+    ("selector", &["is-superselector", "append", "extend", "nest", "parse", "replace", "unify", "simple-selectors"]),
+    ("meta", &["calc-args", "calc-name", "call", "content-exists", "feature-exists", "function-exists", "get-function", "global-variable-exists", "inspect", "keywords", "mixin-exists", "module-functions", "module-variables", "type-of", "variable-exists"]),
+];
+
+/// A stylesheet whose FIRST function-related action is one call of one built-in, through its module,
+/// through `as *`, through a forward, or by its global name: how a function is found must not depend on
+/// what the process has looked up before (lazily built tables).  The argument is a literal, so no other
+/// function is touched on the way; most calls fail for arity or type - always in the same way.
+pub fn first_touch(rng: &mut Rng) -> Item {
+    let (m, fs) = *rng.pick(&BUILTIN_FNS);
+    let f = *rng.pick(fs);
+    let arg = *rng.pick(&["#102030", "1", "1.5px", "\"a b\"", "(a: 1)", "1 2 3", ""]);
+    let how = rng.below(5);
+    let src = match how {
+        0 => format!("@use \"sass:{m}\";\na {{ b: {m}.{f}({arg}); }}\n"),
+        1 => format!("@use \"sass:{m}\" as *;\na {{ b: {f}({arg}); }}\n"),
+        2 => format!("@use \"sass:{m}\" as q;\na {{ b: q.{f}({arg}); }}\n"),
+        3 => format!("a {{ b: {f}({arg}); }}\n"),
+        _ => format!("@use \"sass:meta\";\na {{ b: meta.inspect(meta.module-functions(\"{m}\")); }}\n"),
+    };
+    let mut it = Item::simple(&format!("first-touch-{how}-{m}.{f}"), &src);
+    it.nondet = f == "random" || f == "unique-id";
+    it
+}
+
 #[derive(Clone)]
 pub struct CorpusCase {
     pub item: Item,
@@ -410,7 +456,8 @@ pub fn sibling_of(it: &Item, rng: &mut Rng) -> Option<Item> {
 
 /// Draw one workload item.
 pub fn draw_item(rng: &mut Rng) -> Item {
-    let mut it = match rng.below(11) {
+    let mut it = match rng.below(12) {
+        11 => first_touch(rng),
         10 => lookup_storm(rng),
         0 | 1 => Item::simple("probe", &probe_program(rng.below(2))),
         2 | 3 => {
